@@ -123,7 +123,7 @@ def merge_round(rep, pid, cases, tier, tagsrc='gen'):
                     return bool(SM.oracle_merge_lookup(cc, oo))
                 return False
             cmin = SM.shrink_merge(c, failing) if sig == 'lookup' else c
-            if o['status'] != 'ok':
+            if o['status'] != 'ok' and sig not in ('inputs', 'alias'):
                 sig = 'raise:' + (o.get('error') or o['status']).split('(')[0]
             rep.failure('%s: %s' % (sig, f), {'tag': region + '/' + sig, 'suite': 'merge', 'case': cmin,
                                               'error': o.get('error')})
